@@ -205,3 +205,35 @@ func verifHarness_C07_replay() {
 		verifAssert(a.i.LastPostMessage(target) == rm.ClientMessageId, "message-of-death-advances-the-duplicate-marker")
 	}
 }
+
+// C03: serializing the state and loading it into a fresh instance is invisible.
+func verifHarness_C03_roundtrip() {
+	t := vBuild(verifCase(2) + vRoleClient) // registered client or operator as first session
+	i := t.i
+	data, err := i.Marshal(nondetU64())
+	verifAssert(err == nil, "marshal-no-error")
+	j := NewIRCServer("robustirc.net", i.ServerCreation)
+	_, err = j.Unmarshal(data)
+	verifAssert(err == nil, "unmarshal-no-error")
+	if err != nil {
+		return
+	}
+	verifAssert(verifDeepEq(i.sessions, j.sessions, "nileqempty"), "roundtrip-sessions")
+	verifAssert(verifDeepEq(i.nicks, j.nicks, "nileqempty"), "roundtrip-nickname-index")
+	verifAssert(verifDeepEq(i.channels, j.channels, "nileqempty"), "roundtrip-channels")
+	verifAssert(verifDeepEq(i.svsholds, j.svsholds, "nileqempty"), "roundtrip-svsholds")
+	verifAssert(verifDeepEq(i.serverSessions, j.serverSessions, "nileqempty"), "roundtrip-server-sessions")
+	verifAssert(i.lastProcessed == j.lastProcessed, "roundtrip-last-processed")
+	a, b := i.Config, j.Config
+	verifAssert(a.Revision == b.Revision, "roundtrip-config-revision")
+	verifAssert(verifDeepEq(a.IRC, b.IRC, "nileqempty"), "roundtrip-config-irc")
+	verifAssert(verifAnd(a.SessionExpiration == b.SessionExpiration, a.PostMessageCooloff == b.PostMessageCooloff), "roundtrip-config-durations")
+	verifAssert(verifDeepEq(a.TrustedBridges, b.TrustedBridges, "nileqempty"), "roundtrip-config-trusted-bridges")
+	verifAssert(verifAnd(a.CaptchaURL == b.CaptchaURL, a.CaptchaRequiredForLogin == b.CaptchaRequiredForLogin), "roundtrip-config-captcha")
+	verifAssert(string(a.CaptchaHMACSecret) == string(b.CaptchaHMACSecret), "roundtrip-config-captcha-secret-bytes")
+	verifAssert(verifImplies(a.CaptchaHMACSecret == nil, b.CaptchaHMACSecret == nil), "roundtrip-config-unset-captcha-secret-stays-unset")
+	verifAssert(verifImplies(a.CaptchaHMACSecret != nil, b.CaptchaHMACSecret != nil), "roundtrip-config-set-captcha-secret-stays-set")
+	verifAssert(verifAnd(a.MaxSessions == b.MaxSessions, a.MaxChannels == b.MaxChannels), "roundtrip-config-limits")
+	verifAssert(verifDeepEq(a.Banned, b.Banned, "nileqempty"), "roundtrip-config-banned")
+	verifAssert(verifDeepEq(a.WhitelistedOrigins, b.WhitelistedOrigins, "nileqempty"), "roundtrip-config-whitelisted-origins")
+}
